@@ -433,6 +433,7 @@ type rec struct {
 	DepsOK  bool   `json:"deps_all_present,omitempty"`
 	Missing string `json:"missing_dep,omitempty"`
 	Note    string `json:"note,omitempty"`
+	NetErr  bool   `json:"client_network_error,omitempty"` // no answer from the node reached the client (timeout): not an observation
 }
 
 type finding struct {
@@ -591,6 +592,7 @@ func (n *node) doPut(ti, di int) *rec {
 	r.Res = n.tick()
 	r.OK = err == nil
 	r.Status, r.Err = errInfo(err)
+	r.NetErr = httputil.IsNetworkError(err) // outcome at the node unknown; stays a candidate, is not a success
 	n.mu.Lock()
 	n.hist = append(n.hist, r)
 	if r.OK {
@@ -625,6 +627,15 @@ func (n *node) doGet(ti int) *rec {
 	}
 	if err == nil {
 		r.Got = d.Hex()
+	}
+	if httputil.IsNetworkError(err) {
+		// the client gave up (its 10 s timeout on a stalled machine) or the
+		// connection broke: the node's answer was not observed
+		r.NetErr = true
+		n.mu.Lock()
+		n.hist = append(n.hist, r)
+		n.mu.Unlock()
+		return r
 	}
 	n.mu.Lock()
 	n.hist = append(n.hist, r)
@@ -808,6 +819,8 @@ type outcome struct {
 	beCalls    int
 	beFails    int
 	statCalls  int
+	netErrs    int
+	ops        int
 	nontrivial bool
 }
 
@@ -829,6 +842,12 @@ func runCase(t *testing.T, base string, db *sqlx.DB, c caseSpec, attempt int) *o
 	n.be.mu.Unlock()
 	o.statCalls = n.origin.statCalls
 	for _, r := range n.hist {
+		if r.NetErr {
+			o.netErrs++
+		}
+		if r.Op == "put" || r.Op == "get" || r.Op == "has" {
+			o.ops++
+		}
 		switch r.Op {
 		case "put":
 			if r.OK {
@@ -866,7 +885,7 @@ func TestC32(t *testing.T) {
 	run.Assume("'eventually written back' is judged as: no write-back task may disappear while the backend lacks the tag (violation) plus a 60 s progress bound after the backend is available (inconclusive when tripped); the manager runs on real time with 1-3 ms intervals because it has no clock seam")
 
 	r := run.Rand("cases")
-	ncases := run.N(300, 2000)
+	ncases := run.N(240, 2000)
 	cases := make([]caseSpec, ncases)
 	for i := range cases {
 		cases[i] = genCase(r, i)
@@ -899,9 +918,20 @@ func TestC32(t *testing.T) {
 	wg.Wait()
 
 	inconcl := 0
+	netErrs, ops := 0, 0
+	defer func() {
+		if netErrs*100 > ops {
+			run.Inconclusive(fmt.Sprintf("%d of %d client operations got no answer from the node (client timeouts): machine too slow to observe", netErrs, ops))
+		}
+	}()
 	for i, o := range outcomes {
 		if o == nil {
 			continue
+		}
+		netErrs += o.netErrs
+		ops += o.ops
+		if o.netErrs > 0 {
+			run.Count("client_operations_without_answer", int64(o.netErrs))
 		}
 		run.Case(ev.JSON(o.spec), o.nontrivial)
 		run.Count("puts_ok", int64(o.okPuts))
